@@ -183,6 +183,12 @@ class FromDAOState:
     outermost `from_dao` call is done, because the final object of an alternative mapping only exists from then on.
     """
 
+    temporary_daos: List[Any] = field(default_factory=list)
+    """
+    DAOs that are created during the conversion. They are kept alive as long as the state lives, because the memo is keyed
+    by object ids and the id of a garbage collected DAO may be given to another DAO.
+    """
+
     def has(self, dao_obj: Any) -> bool:
         return id(dao_obj) in self.memo
 
@@ -802,6 +808,7 @@ class DataAccessObject(HasGeneric[T]):
         base_kwargs: Dict[str, Any] = {}
         if self.uses_alternative_mapping(base):
             parent_dao = base()
+            state.temporary_daos.append(parent_dao)
             parent_mapper = sqlalchemy.inspection.inspect(base)
             for column in parent_mapper.columns:
                 if is_data_column(column):
